@@ -801,10 +801,10 @@ theorem tStep_advance_zero (cfg : TCfg) (s : TState) (h : WF s) :
   have hq : s.quit = false := by simpa using hq
   rw [tStep_advance_of_not_quit cfg s 0 hq]
   by_cases hr : s.registered = false
-  · rw [adv_unreg cfg _ s hq hr]
+  · rw [adv_unreg cfg _ s hq hr]; rfl
   have hr : s.registered = true := by simpa using hr
   obtain ⟨h1, h2⟩ := h hq hr
-  rw [adv_idle cfg _ s hq hr (by simpa using h2) (by simpa using h1)]
+  rw [adv_idle cfg _ s hq hr (by simpa using h2) (by simpa using h1)]; rfl
 
 /-- A run without client PONG is, as far as the timers are concerned, a single `advance`. -/
 theorem tRun_noPong (cfg : TCfg) (hP : 1 ≤ cfg.pingMs) (es : List TEvent) (s : TState)
@@ -853,5 +853,97 @@ theorem adv_before_fixed (cfg : TCfg) (hP : 1 ≤ cfg.pingMs) (hfix : cfg.fixed 
     obtain ⟨h1, h2⟩ := ih hq hr (Or.inl hdl)
     exact ⟨h1, by simpa [errorTimes] using h2⟩
   · intro s hq _ _ _ _ _ _; exact ⟨hq, rfl⟩
+
+/-! ## run level: the PING schedule -/
+
+/-- invariant of every run from `TState.start cfg regAt`: `n` PINGs were sent, at
+    `regAt + P, …, regAt + n·P`; the next is due at `regAt + (n+1)·P`. -/
+def Sched (cfg : TCfg) (regAt : Nat) (s : TState) (out : List TOut) : Prop :=
+  s.registered = true ∧
+  (∀ d, s.deadline = some d → s.nextPing < d + cfg.pingMs) ∧
+  ∃ n, s.nextPing = regAt + (n + 1) * cfg.pingMs ∧
+    pingTimes out = pingList (regAt + cfg.pingMs) cfg.pingMs n ∧
+    (s.quit = false →
+      s.now < s.nextPing ∧ s.nextPing ≤ s.now + cfg.pingMs ∧ errorTimes out = []) ∧
+    (s.quit = true →
+      s.now ≤ s.nextPing ∧ s.nextPing < s.now + cfg.pingMs ∧ errorTimes out = [s.now])
+
+theorem sched_start (cfg : TCfg) (hP : 1 ≤ cfg.pingMs) (regAt : Nat) :
+    Sched cfg regAt (TState.start cfg regAt) [] := by
+  refine ⟨rfl, by simp [TState.start], 0, by simp [TState.start], rfl, ?_, ?_⟩
+  · intro _; simp [TState.start, errorTimes]; omega
+  · intro h; simp [TState.start] at h
+
+theorem tStep_sched (cfg : TCfg) (hP : 1 ≤ cfg.pingMs) (hT : 1 ≤ cfg.pongMs) (regAt : Nat)
+    (s : TState) (out : List TOut) (e : TEvent) (h : Sched cfg regAt s out) :
+    Sched cfg regAt (tStep cfg s e).1 (out ++ (tStep cfg s e).2) := by
+  by_cases hq : s.quit = true
+  · rw [tStep_quit cfg s e hq]; simpa using h
+  have hq : s.quit = false := by simpa using hq
+  obtain ⟨hr, hd, n, hn, hp, hA, hB⟩ := h
+  obtain ⟨hA1, hA2, hA3⟩ := hA hq
+  cases e with
+  | advance ms =>
+    rw [tStep_advance_of_not_quit cfg s ms hq]
+    obtain ⟨m, h1, h2, h3, _, h5, h6, h7⟩ := adv_sched cfg hP hT (s.now + ms) s hq hr hd
+    refine ⟨h3, h5, n + m, ?_, ?_, ?_, ?_⟩
+    · rw [h1, hn]; simp only [Nat.add_mul, Nat.succ_mul]; omega
+    · rw [pingTimes_append, hp, h2, pingList_append, hn]
+      congr 2; simp only [Nat.succ_mul]; omega
+    · intro hq'
+      obtain ⟨a, b, c, d⟩ := h6 hq'
+      refine ⟨by omega, ?_, by rw [errorTimes_append, hA3, d]; rfl⟩
+      rcases c with c | c
+      · subst c; simp at h1; omega
+      · omega
+    · intro hq'
+      obtain ⟨a, b, _, d⟩ := h7 hq'
+      exact ⟨a, b, by rw [errorTimes_append, hA3, d]; rfl⟩
+  | pong =>
+    rw [tStep_pong cfg s hq]
+    refine ⟨hr, by simp, n, hn, by simpa using hp, ?_, ?_⟩
+    · intro _; exact ⟨hA1, hA2, by simpa using hA3⟩
+    · intro h; simp [hq] at h
+  | pingCmd tok =>
+    rw [tStep_pingCmd_state]
+    refine ⟨hr, hd, n, hn, ?_, ?_, ?_⟩
+    · rw [pingTimes_append, tStep_pingCmd_pingTimes]; simpa using hp
+    · intro _
+      exact ⟨hA1, hA2, by rw [errorTimes_append, tStep_pingCmd_errorTimes]; simpa using hA3⟩
+    · intro h; simp [hq] at h
+
+theorem tRun_sched (cfg : TCfg) (hP : 1 ≤ cfg.pingMs) (hT : 1 ≤ cfg.pongMs) (regAt : Nat)
+    (es : List TEvent) (s : TState) (out : List TOut) (h : Sched cfg regAt s out) :
+    Sched cfg regAt (tRun cfg s es).1 (out ++ (tRun cfg s es).2) := by
+  induction es generalizing s out with
+  | nil => simpa [tRun_nil] using h
+  | cons e es ih =>
+    rw [tRun_cons]
+    have := ih _ _ (tStep_sched cfg hP hT regAt s out e h)
+    simpa [List.append_assoc] using this
+
+/-- the clock of a run that has not quit -/
+theorem tRun_now (cfg : TCfg) (hP : 1 ≤ cfg.pingMs) (es : List TEvent) (s : TState)
+    (h : (tRun cfg s es).1.quit = false) : (tRun cfg s es).1.now = s.now + duration es := by
+  induction es generalizing s with
+  | nil => rfl
+  | cons e es ih =>
+    rw [tRun_cons] at h ⊢
+    simp only at h ⊢
+    have hq1 : (tStep cfg s e).1.quit = false := by
+      cases hq1 : (tStep cfg s e).1.quit with
+      | false => rfl
+      | true => rw [tRun_quit cfg _ _ hq1] at h; rw [hq1] at h; exact h
+    have hq : s.quit = false := by
+      cases hq : s.quit with
+      | false => rfl
+      | true => rw [tStep_quit cfg s e hq] at hq1; rw [hq] at hq1; exact hq1
+    rw [ih _ h]
+    cases e with
+    | advance ms =>
+      rw [tStep_advance_of_not_quit cfg s ms hq] at hq1 ⊢
+      rw [adv_now cfg hP _ s hq hq1]; simp only [duration]; omega
+    | pong => rw [tStep_pong cfg s hq]; rfl
+    | pingCmd tok => rw [tStep_pingCmd_state]; rfl
 
 end Irc.Timer
